@@ -14,6 +14,7 @@ import (
 	"fmt"
 	"os"
 	"path/filepath"
+	"reflect"
 	"runtime"
 	"sort"
 	"strings"
@@ -48,17 +49,18 @@ import (
 
 // Config: one request on one initial cache with a number of workers.
 type Config struct {
-	Modules     *pbsubstreams.Modules
-	Output      string
-	Prod        bool
-	Seg         uint64
-	Start       uint64
-	Stop        uint64
-	Final       int64 // -1 unknown
-	Workers     int
-	Initial     map[string][]byte // initial cache: relative path under test.store -> bytes
-	PartialWins bool              // outcome of the partial-vs-full load race in the squasher (default: the full snapshot wins when it exists)
-	Cap         int               // multiplicity cap of idempotent messages in the state key (0 = exact)
+	MergeAtIssue bool // run merge bodies when the command is issued instead of as separate events (the first version of the explorer)
+	Modules      *pbsubstreams.Modules
+	Output       string
+	Prod         bool
+	Seg          uint64
+	Start        uint64
+	Stop         uint64
+	Final        int64 // -1 unknown
+	Workers      int
+	Initial      map[string][]byte // initial cache: relative path under test.store -> bytes
+	PartialWins  bool              // outcome of the partial-vs-full load race in the squasher (default: the full snapshot wins when it exists)
+	Cap          int               // multiplicity cap of idempotent messages in the state key (0 = exact)
 }
 
 type nullEmitter struct{}
@@ -67,10 +69,12 @@ func (nullEmitter) Emit(context.Context, dmetering.Event) {}
 func (nullEmitter) Shutdown(error)                        {}
 
 type event struct {
-	id  string   // canonical identity (what the explorer chooses by)
-	msg loop.Msg // message to deliver (nil for job bodies)
-	job *jobRec  // job body to run
-	seq int
+	mergeStage int      // merge body parked at its first snapshot open (-1: none)
+	mergeCmd   loop.Cmd // deferred body of a merge command
+	id         string   // canonical identity (what the explorer chooses by)
+	msg        loop.Msg // message to deliver (nil for job bodies)
+	job        *jobRec  // job body to run
+	seq        int
 }
 
 type jobRec struct {
@@ -90,7 +94,7 @@ type xWorker struct {
 func (x *xWorker) ID() string { return fmt.Sprintf("x%d", x.id) }
 func (x *xWorker) Work(ctx context.Context, unit stage.Unit, startBlock uint64, moduleNames []string, upstream *response.Stream) loop.Cmd {
 	return func() loop.Msg {
-		x.w.pending = append(x.w.pending, &event{id: fmt.Sprintf("job-body{seg=%d,stage=%d}", unit.Segment, unit.Stage), job: &jobRec{unit: unit, start: startBlock, worker: x, ctx: ctx}})
+		x.w.pending = append(x.w.pending, &event{mergeStage: -1, id: fmt.Sprintf("job-body{seg=%d,stage=%d}", unit.Segment, unit.Stage), job: &jobRec{unit: unit, start: startBlock, worker: x, ctx: ctx}})
 		x.w.dispatched = append(x.w.dispatched, unit)
 		return jobMarker{}
 	}
@@ -324,7 +328,23 @@ func (w *World) exec(cmd loop.Cmd) {
 	if cmd == nil {
 		return
 	}
+	if !w.cfg.MergeAtIssue && isMergeCmd(cmd) {
+		// the body of a merge (load partial and full store, merge, delete, write) is an explicit event: the unit is
+		// already in the Merging state (CmdTryMerge marks it synchronously), the work happens when the explorer says so
+		u, ok := w.newMergingUnit()
+		if !ok {
+			w.Violation = "harness: a merge command was issued but no stage has a newly merging unit"
+			return
+		}
+		w.pending = append(w.pending, &event{mergeStage: u[1], id: fmt.Sprintf("merge-body{seg=%d,stage=%d}", u[0], u[1]), mergeCmd: cmd})
+		return
+	}
 	msg := cmd()
+	w.handle(msg)
+}
+
+// handle files the message a command returned.
+func (w *World) handle(msg loop.Msg) {
 	switch m := msg.(type) {
 	case nil:
 		return
@@ -354,7 +374,7 @@ func (w *World) exec(cmd loop.Cmd) {
 			fn.NextWait = 0
 			msg = fn
 		}
-		w.push(&event{id: describe(msg), msg: msg})
+		w.push(&event{mergeStage: -1, id: describe(msg), msg: msg})
 	}
 }
 
@@ -416,6 +436,15 @@ func (w *World) Step(id string) error {
 	w.Trace = append(w.Trace, id)
 	if e.job != nil {
 		w.runJob(e.job)
+		w.drain()
+		return nil
+	}
+	if e.mergeCmd != nil {
+		var msg loop.Msg
+		if v := w.safely(func() { msg = e.mergeCmd() }); v != "" {
+			w.Violation = fmt.Sprintf("running %s: %s", id, v)
+		}
+		w.handle(msg)
 		w.drain()
 		return nil
 	}
@@ -516,11 +545,11 @@ func (w *World) runJob(j *jobRec) {
 	w.jobsRun++
 	if res.err != "" {
 		m := work.MsgJobFailed{Unit: j.unit, Error: errors.New(res.err)}
-		w.pending = append(w.pending, &event{id: describe(m), msg: m})
+		w.pending = append(w.pending, &event{mergeStage: -1, id: describe(m), msg: m})
 		return
 	}
 	m := work.MsgJobSucceeded{Unit: j.unit, Worker: j.worker}
-	w.pending = append(w.pending, &event{id: describe(m), msg: m})
+	w.pending = append(w.pending, &event{mergeStage: -1, id: describe(m), msg: m})
 }
 
 // Key: canonical state key. It drops only what no future can observe (statistics, wall-clock fields, file bytes:
@@ -589,4 +618,28 @@ func (w *World) FinalStores() (map[string]string, error) {
 		out[name] = strings.Join(kvs, " ")
 	}
 	return out, nil
+}
+
+// isMergeCmd recognises the closure returned by Stages.CmdTryMerge for an actual merge by its function symbol.
+func isMergeCmd(cmd loop.Cmd) bool {
+	f := runtime.FuncForPC(reflect.ValueOf(cmd).Pointer())
+	return f != nil && strings.HasSuffix(f.Name(), "stage.(*Stages).CmdTryMerge.func1")
+}
+
+// newMergingUnit finds the unit in the Merging state that has no pending merge body yet ({segment, stage}).
+func (w *World) newMergingUnit() ([2]int, bool) {
+	have := map[[2]int]bool{}
+	for _, e := range w.pending {
+		if e.mergeCmd != nil {
+			var g, st int
+			fmt.Sscanf(e.id, "merge-body{seg=%d,stage=%d}", &g, &st)
+			have[[2]int{g, st}] = true
+		}
+	}
+	for _, u := range w.sched.Stages.VerifMergingUnits() {
+		if !have[u] {
+			return u, true
+		}
+	}
+	return [2]int{}, false
 }
